@@ -248,6 +248,8 @@ impl Inst {
         }
         if name == "cut" || name == "rmdata" {
             // the environment shortens / deletes the data file while the installation is closed
+            // (where the objects lie is read through a freshly initialised handle, whatever the current one knows)
+            self.open();
             let hit: Vec<String> = if name == "cut" {
                 let files = self.data_files();
                 let newlen = files.first().map(|f| f.1.saturating_sub(u(op, "n"))).unwrap_or(0);
@@ -390,15 +392,23 @@ impl Inst {
                         } else {
                             use std::io::{Read, Seek, SeekFrom, Write};
                             let f = self.data_dir().join(format!("data.{id:03}"));
-                            let mut fh = std::fs::OpenOptions::new().read(true).write(true).open(&f).expect("driver: open data file");
                             let mut b = [0u8; 1];
-                            fh.seek(SeekFrom::Start(pos)).unwrap();
-                            fh.read_exact(&mut b).expect("driver: read byte");
-                            b[0] ^= 0x20;
-                            fh.seek(SeekFrom::Start(pos)).unwrap();
-                            fh.write_all(&b).unwrap();
-                            fh.sync_all().unwrap();
-                            ev["res"] = json!("ok");
+                            // bytes that are no longer there (file cut or deleted) cannot be flipped
+                            let there = std::fs::OpenOptions::new().read(true).write(true).open(&f).ok().and_then(|mut fh| {
+                                fh.seek(SeekFrom::Start(pos)).ok()?;
+                                fh.read_exact(&mut b).ok()?;
+                                Some(fh)
+                            });
+                            match there {
+                                None => ev["res"] = json!("skip"),
+                                Some(mut fh) => {
+                                    b[0] ^= 0x20;
+                                    fh.seek(SeekFrom::Start(pos)).unwrap();
+                                    fh.write_all(&b).unwrap();
+                                    fh.sync_all().unwrap();
+                                    ev["res"] = json!("ok");
+                                }
+                            }
                         }
                     }
                 }
@@ -474,6 +484,8 @@ fn run_inst(prog: &Value, em: &Emit) {
     let mut seq = 0u64;
     let mut ops: Vec<Value> = prog["ops"].as_array().cloned().unwrap_or_default();
     if prog["audit"] != json!(false) {
+        // the audit looks at what the disk holds: through a freshly opened and initialised handle
+        ops.push(json!({"op": "reopen", "audit": 1}));
         for p in &w.table {
             ops.push(json!({"op": "read_e", "p": p.name, "audit": 1}));
         }
@@ -1244,8 +1256,9 @@ fn random_program(rng: &mut Rng, len: usize) -> Value {
     let mut payloads = vec![];
     for i in 0..npay {
         let cls = *rng.pick(&["plain", "plain", "comp", "nested"]);
-        let len = *rng.pick(&[0u64, 1, 20, 33, 34, 100, 300, 5000]);
-        payloads.push(json!([format!("q{i}"), cls, len.max(if cls == "nested" { 9 } else { 0 })]));
+        let len = if i == 0 { 0 } else { *rng.pick(&[1u64, 20, 33, 34, 100, 300, 5000]) };
+        // (a nested payload of 9 bytes is the BLTE wrapping of the empty file: its content key would be the encoding key of an empty payload)
+        payloads.push(json!([format!("q{i}"), cls, len.max(if cls == "nested" { 10 } else { 0 })]));
     }
     let pn = |rng: &mut Rng| format!("q{}", rng.below(npay as u64));
     let mut roots = Map::new();
